@@ -6,6 +6,7 @@
 //!   `dots`   polygonal event stream → `Hatcher::dot_path`; IMPL = `next_row_offset(col,row)` /
 //!            `add_dot` callbacks
 //!   `curves` (oracle only) paths with quadratic / cubic segments through both entry points
+//!   `stall`  (oracle only, 9 fixed cases) the row loop at magnitudes where `y + offset == y`
 //!
 //! ORCL (always on the real implementation's output, independent f64 / lattice-exact reference):
 //!   * `…/no-panic`            empty path → no output, no panic        (class `empty-path-unwrap`)
@@ -1213,6 +1214,85 @@ fn dots_oracle(orc: &mut Oracle, fr: &Frame, items: &[DItem], pat: &DotPat, rows
     }
 }
 
+// ---------------------------------------------------------------------------------------------
+// observation: the row loop has no progress guard
+
+/// a `HatchBuilder` that gives a constant offset and bails out (by unwinding) after `cap` rows
+struct Capped {
+    interval: f32,
+    calls: u32,
+    cap: u32,
+    segs: u32,
+}
+
+impl HatchBuilder for Capped {
+    fn add_segment(&mut self, _s: &HatchSegment) {
+        self.segs += 1;
+    }
+    fn next_offset(&mut self, _row: u32) -> f32 {
+        self.calls += 1;
+        if self.calls > self.cap {
+            std::panic::panic_any(Stalled(self.calls, self.segs));
+        }
+        self.interval
+    }
+}
+
+struct Stalled(u32, u32);
+
+/// `while y < … { hatch_line(y); y += offset; if offset <= 0 { return } }`: when `offset` is below
+/// half an ulp of `y` the sum rounds back to `y` and the loop never ends (each turn emits the same
+/// row again).  Needs |y| / offset ≥ 2^24: not a moderate input; recorded as an observation
+/// (`ORCL skip stalled-row-loop`), not as a violation — the property's only termination-like clause
+/// is about the empty path.  The square [b, b+64]² with interval 1 should give 63 rows.
+fn stall_case(ctx: &mut Ctx, k: u32) {
+    ctx.case("stall:32", move |_rng| {
+        let base = (1u64 << k) as f32;
+        let mut args = Out::new();
+        args.t("S").f(base).f(1.0f32);
+        let tag = format!("stall base=2^{} {}", k, if k >= 24 { "interval<=ulp/2" } else { "control" });
+        (args, tag, move || {
+            let mut p = Path::builder();
+            p.begin(point(base, base));
+            p.line_to(point(base + 64.0, base));
+            p.line_to(point(base + 64.0, base + 64.0));
+            p.line_to(point(base, base + 64.0));
+            p.end(true);
+            let path = p.build();
+            let mut o = Out::new();
+            let mut orc = Oracle::new();
+            let r = std::panic::catch_unwind(std::panic::AssertUnwindSafe(|| {
+                let mut b = Capped { interval: 1.0, calls: 0, cap: 5000, segs: 0 };
+                Hatcher::new().hatch_path(path.iter(), &HatchingOptions::DEFAULT, &mut b);
+                (b.calls, b.segs)
+            }));
+            match r {
+                Ok((calls, segs)) => {
+                    o.t("finished").u(calls as u64).u(segs as u64);
+                    orc.check(k >= 24 || (calls == 64 && segs == 63), "hatch/row-spacing", "generic", || {
+                        format!("square of height 64 at 2^{} with interval 1: {} offset calls, {} segments (64 / 63 expected)", k, calls, segs)
+                    });
+                }
+                Err(e) => match e.downcast_ref::<Stalled>() {
+                    Some(Stalled(calls, segs)) => {
+                        o.t("stalled").u(*calls as u64).u(*segs as u64);
+                        if k >= 24 {
+                            orc.skip("stalled-row-loop y+offset==y: the row loop does not advance (offset <= ulp(y)/2); cut off by the harness after 5000 rows");
+                        } else {
+                            orc.check(false, "hatch/row-loop-progress", "generic", || format!("row loop stalled at moderate magnitude 2^{} with interval 1", k));
+                        }
+                    }
+                    None => {
+                        o.t("panic");
+                        orc.check(false, "hatch_path/no-panic", "generic", || "hatcher panicked".to_string());
+                    }
+                },
+            }
+            CaseOut { imp: o, orcl: orc.verdict }
+        })
+    });
+}
+
 fn main() {
     let mut ctx = Ctx::from_args("C20");
     let n = ctx.n(4000, 150000);
@@ -1225,6 +1305,10 @@ fn main() {
         } else {
             dots_case(&mut ctx, true);
         }
+    }
+    // fixed tail (after the generated cases, so that their ids do not move)
+    for k in [10u32, 16, 20, 22, 23, 24, 25, 27, 30] {
+        stall_case(&mut ctx, k);
     }
     ctx.finish();
 }
